@@ -534,8 +534,9 @@ fn resize_stream<F: Read + Write + Seek>(
     } else if old_stream_len < consts::MINI_STREAM_CUTOFF as u64 {
         // Case 2: The stream currently exists in a mini chain.
         if new_stream_len == 0 {
-            // Case 2a: The new length is zero.  Free the existing mini chain.
-            minialloc.free_mini_chain(old_start_sector)?;
+            // Case 2a: The new length is zero.  Free the existing mini chain
+            // (once the directory entry no longer points at it).
+            old_chain = OldChain::FreeMini(old_start_sector);
             consts::END_OF_CHAIN
         } else if new_stream_len < consts::MINI_STREAM_CUTOFF as u64 {
             // Case 2b: The new length is still small enough to fit in a mini
@@ -567,8 +568,9 @@ fn resize_stream<F: Read + Write + Seek>(
     } else {
         // Case 3: The stream currently exists in a regular chain.
         if new_stream_len == 0 {
-            // Case 3a: The new length is zero.  Free the existing chain.
-            minialloc.free_chain(old_start_sector)?;
+            // Case 3a: The new length is zero.  Free the existing chain (once
+            // the directory entry no longer points at it).
+            old_chain = OldChain::FreeRegular(old_start_sector);
             consts::END_OF_CHAIN
         } else if new_stream_len < consts::MINI_STREAM_CUTOFF as u64 {
             // Case 3b: The new length is small enough to fit in a mini chain.
